@@ -75,6 +75,13 @@ def check_body(ctx, g, bid, sq):
             if len(e) > 3:   # call definition
                 if ("CALLRES", bid, e[3]) in sq:
                     return True
+                # a local helper or closure that returns a squeezed challenge
+                t = b.blocks[e[3]]["term"]
+                tg = list(f.call_targets(t, g.ctx_adt))
+                if t.get("self_closure"):
+                    tg.append(t["self_closure"])
+                if any((x, 0) in sq for x in tg):
+                    return True
             return any((bid, s) in sq for s in e[2])
         good = [(i, e) for (i, e) in defs if derived(i, e)]
         bad = [(i, e) for (i, e) in defs if not derived(i, e)]
